@@ -68,8 +68,11 @@ def assemble(g: Dict[str, Any], parts: List[Part], rule: str = "", explanation: 
     def run(ctx: Ctx):
         import torch
         torch.set_num_threads(1)
+        import time as _time
         for p in parts:
+            t0 = _time.time()
             p.run(_Tagged(ctx, p.name))
+            ctx.hist["wall_s:" + p.name] = round(_time.time() - t0, 1)
 
     def replay(ctx: Ctx, payload) -> Tuple[bool, str]:
         kind = payload.get("kind", "")
